@@ -5,7 +5,7 @@ identities of the objects involved). Items that were already there before the op
 must be explained by the region predicate of a listed known finding (then it is attributed to it) — otherwise it is
 reported as a violation with the history as witness.
 """
-from harness.c09_ops import RANK, ALLOWED_IN, op_to_json, op_line, cssmods, Spec, BROKEN_TAILS
+from harness.c09_ops import RANK, ALLOWED_IN, op_to_json, op_line, cssmods, Spec, BROKEN_TAILS, items_text
 
 CLAUSE = {
     'order': 'rules are ordered @charset < @import < @namespace < @variables < style/@media/@page/@font-face '
@@ -93,11 +93,13 @@ def items_of(st):
         st.decls[id(d)] = (d, o.typeString)
         for p in d.getProperties(all=True):
             cur_prop.add(id(p))
-            st.props[id(p)] = (p, o.typeString)
+            st.oprops[id(p)] = (p, o.typeString)
+    for i, p in st.props.items():
+        st.oprops.setdefault(i, (p, 'operation'))       # Property objects handed to setProperty
     for i, (d, owner) in st.decls.items():
         if i not in cur_decl and d.parentRule is not None:
             out[('gonedecl', i)] = 'declaration block replaced in a %s: parentRule is %r' % (owner, d.parentRule)
-    for i, (p, owner) in st.props.items():
+    for i, (p, owner) in st.oprops.items():
         # a property names a block that does not hold it (a block that was itself replaced still holds its properties)
         if i not in cur_prop and p.parent is not None and not any(q is p for q in p.parent.getProperties(all=True)):
             out[('goneprop', i)] = 'property %s removed from the block of a %s: parent is %r' % (p.name, owner, p.parent)
@@ -136,7 +138,7 @@ class Oracle:
 
     def witness(self, ops, raising):
         return {'ops': [op_to_json(o) for o in ops], 'raising': raising,
-                'lines': [(op_line(o) or 'decl %s %s' % (list(o[1]), o[2])) +
+                'lines': [(op_line(o) or 'decl %s %s' % (list(o[1]), o[2])) + (' text=%r' % items_text(o[2]) if o[0] in ('dnew', 'dtext') else '') +
                           (' tail=%r' % BROKEN_TAILS[o[3] % len(BROKEN_TAILS)] if o[0] == 'nbroken' else '') for o in ops]}
 
     def after(self, st, op, out, pre, ops, raising):
